@@ -296,7 +296,7 @@ impl Property for Wrap {
     }
     fn budget(&self, tier: Tier) -> Budget {
         Budget {
-            cases: tier.pick(300_000, 40_000_000),
+            cases: tier.pick(2_000_000, 40_000_000),
             tape_len: 2000,
         }
     }
@@ -396,7 +396,7 @@ impl Property for PublicPath {
     }
     fn budget(&self, tier: Tier) -> Budget {
         Budget {
-            cases: tier.pick(40_000, 2_000_000),
+            cases: tier.pick(200_000, 2_000_000),
             tape_len: 2000,
         }
     }
